@@ -99,6 +99,8 @@ public:
         I.setIdentity();
         // Sparse LU decomposition
         m_solver.compute(m_mat.template cast<Complex>() - Complex(sigmar, sigmai) * I);
+        if (m_solver.info() != Eigen::Success)
+            throw std::invalid_argument("SparseGenComplexShiftSolve: factorization failed with the given shift");
         // Set cache to zero
         m_x_cache.resize(m_n);
         m_x_cache.setZero();
